@@ -634,9 +634,22 @@ def descr_farith(row, rhs, ops):
     return probs
 
 
+# C99 quiet comparison macros / builtins: the same truth value as the operator for every operand pair (false when unordered), they only
+# differ in not raising the invalid exception.  (islessgreater is NOT `!=`: it is false for unordered operands.)
+QUIET_CMP = {'isless': '<', 'islessequal': '<=', 'isgreater': '>', 'isgreaterequal': '>='}
+
+
 def descr_fcmp(row, rhs, ops):
     W = FT_W[row['sem']['type']]
     e, _ = unwrap(rhs)
+    if e.k == 'call' and (e.x or '').replace('__builtin_', '') in QUIET_CMP and len(e.a) == 2:
+        op = QUIET_CMP[e.x.replace('__builtin_', '')]
+        probs = []
+        if op != row['sem']['op']:
+            probs.append('comparison is %s (the quiet form of %s), specification requires %s' % (e.x, op, row['sem']['op']))
+        if not float_slot(e.a[0], ops[0], W) or not float_slot(e.a[1], ops[1], W):
+            probs.append('operands are %r, %r; expected the float values of %s then %s' % (e.a[0], e.a[1], ops[0], ops[1]))
+        return probs
     if e.k != 'bin':
         raise AnalysisBroken('%s: expected a comparison, found %r' % (row['name'], rhs))
     probs = []
